@@ -584,8 +584,10 @@ Proof.
 Qed.
 
 (* ------------------------------------------------------------------ satisfiable guards, sample orders *)
-From Interval Require Import Tactic.
+(* (no Coq-Interval tactic here: importing Interval.Tactic makes coqchk of this cone very slow) *)
+Lemma cos_small_pos x : 0 <= x <= 1 -> 0 < cos x.
+Proof. intros H. pose proof PI2_1. apply cos_gt_0; lra. Qed.
 Example pdd_guard_sat : cos (1 / (2 * INR 3 + 2)) <> 0.
-Proof. simpl INR. assert (0 < cos (1 / (2 * (1 + 1 + 1) + 2))) by interval. lra. Qed.
+Proof. simpl INR. assert (0 < cos (1 / (2 * (1 + 1 + 1) + 2))) by (apply cos_small_pos; lra). lra. Qed.
 Example cpmg_guard_sat : cos (1 / (2 * INR 4)) <> 0.
-Proof. simpl INR. assert (0 < cos (1 / (2 * (1 + 1 + 1 + 1)))) by interval. lra. Qed.
+Proof. simpl INR. assert (0 < cos (1 / (2 * (1 + 1 + 1 + 1)))) by (apply cos_small_pos; lra). lra. Qed.
